@@ -3,6 +3,7 @@ package block
 import (
 	"bytes"
 	"context"
+	"errors"
 
 	"github.com/evstack/ev-node/internal/zzsym"
 )
@@ -196,4 +197,78 @@ func ZZ_C02_clean_restart() {
 	}
 	zzsym.Assert(bytes.Equal(m2.lastState.AppHash, roots[1]) && m2.lastState.LastBlockHeight == H+2, "same-state-root-as-proposer")
 	zzsym.Reach("converged-after-clean-restart")
+}
+
+// ZZ_C02_stop_inside_run: a clean stop that lands inside a catch-up run.  The
+// proposer's block H+2 is buffered (both parts) before block H+1 completes, so
+// completing H+1 starts a run over both; the stop request arrives while the
+// first or the second block of the run executes (or not at all).  The caches
+// are saved (real SaveCache), the node restarts (real NewManager), the earlier
+// parts are optionally delivered again, and block H+3 arrives.  The node ends
+// at the proposer's chain at H+3.
+func ZZ_C02_stop_inside_run() {
+	zzsym.FreezeClock()
+	zzsym.FreezeTimers()
+	e, m, ex, H, P, roots := zzFullNode(3)
+	// H+1 carries a transaction (its data arrives last and starts the run), H+2 and H+3 are empty
+	zzsym.Assume(len(P[0].data.Txs) > 0 && len(P[1].data.Txs) == 0 && len(P[2].data.Txs) == 0)
+	at := []uint64{5, 6, 7}
+	offer := func(m *Manager, k int) {
+		m.headerInCh <- NewHeaderEvent{zzCopyHeader(P[k].header), at[k]}
+		if len(P[k].data.Txs) > 0 {
+			m.dataInCh <- NewDataEvent{zzCopyData(P[k].data), at[k]}
+		}
+	}
+	ctx, cancel := context.WithCancel(context.Background())
+	stopAt := zzsym.Pick("stop-during-execution-number", 3) // 0: no stop inside the run
+	ex.onExec = func(n int) {
+		if n == stopAt {
+			cancel()
+		}
+	}
+	// block H+2 first (buffered), then block H+1: the run starts
+	offer(m, 1)
+	offer(m, 0)
+	errCh := make(chan error, 4)
+	zzsym.OnIdle(cancel)
+	m.SyncLoop(ctx, errCh)
+	cancel()
+	for len(errCh) > 0 {
+		err := <-errCh
+		zzsym.Assert(stopAt != 0 && errors.Is(err, context.Canceled), "only-the-stop-request-ends-sync")
+	}
+	for len(m.headerInCh) > 0 {
+		<-m.headerInCh
+	}
+	for len(m.dataInCh) > 0 {
+		<-m.dataInCh
+	}
+	mid := e.store.height
+	zzsym.ObserveU64("applied-before-stop", mid-H)
+	zzsym.Assert(m.SaveCache() == nil, "clean-stop-saves-the-caches")
+	e.store = e.store.reopen()
+	ex.onExec = nil
+	m2, err := NewManager(context.Background(), nil, e.cfg, e.gen, e.store, ex, e.seq, nil, m0logger(), nil, nil, e.hb, e.db, NopMetrics(), 1, 1, DefaultManagerOptions())
+	zzsym.Assert(err == nil, "restart-after-clean-stop")
+	if err != nil {
+		return
+	}
+	if zzsym.Bool("redeliver-early-parts") {
+		offer(m2, 1)
+		offer(m2, 0)
+	}
+	offer(m2, 2)
+	ctx2, cancel2 := context.WithCancel(context.Background())
+	errCh2 := make(chan error, 4)
+	zzsym.OnIdle(cancel2)
+	m2.SyncLoop(ctx2, errCh2)
+	cancel2()
+	zzsym.Assert(len(errCh2) == 0, "genuine-traffic-never-stops-sync")
+	zzsym.Assert(e.store.height == H+3, "applies-every-block-whose-parts-all-arrived")
+	for k := 0; k < 3; k++ {
+		sl := e.store.blocks[H+uint64(k)+1]
+		zzsym.Assert(sl != nil && bytes.Equal(sl.header.Hash(), P[k].header.Hash()), "same-header-hash-as-proposer")
+	}
+	zzsym.Assert(bytes.Equal(m2.lastState.AppHash, roots[2]) && m2.lastState.LastBlockHeight == H+3, "same-state-root-as-proposer")
+	zzsym.Reach("converged-after-stop-inside-run")
 }
